@@ -49,6 +49,7 @@ package dispatcher
 // anything runs; on success every action ran once, in order, on the shared attributes, and the
 // forwarding step saw exactly the coin the last action left (or the incoming coin without actions).
 //@ func (d *Dispatcher) DispatchPayload(ctx, transferAttr, payload) (err)
+//@   swallows UpdateStats      // documented in the code: statistics must not interrupt a dispatch
 //@   requires[inv]  d != nil && d.logger != nil && d.ActionHandler != nil && d.ForwardingHandler != nil
 //@   requires[base] transferAttr != nil && taOK(transferAttr)
 //@   modifies ghosts, transferAttr.destinationCoin
